@@ -735,10 +735,29 @@ func scenC04(g *Gen, dir string) ([]*Op, func(e *Env, i int, op *Op, obs []strin
 	// choose the tampering: single-bit flip anywhere, or a field rewrite from the catalogue
 	patchIdx := len(ops)
 	ops = append(ops, &Op{Kind: "patch"}) // sites filled in by the checker once the file length is known
+	forge := s.PGP < 0 && r.Chance(1, 6)
+	if forge {
+		// parser-differential forgery: after the edit, someone without any trusted key signs the
+		// image as it is now and splices that payload into the trusted signature's envelope under
+		// a duplicate member name
+		u := getUniverse()
+		outsider := 100 + r.Intn(len(u.DSSE))
+		for containsInt(s.DSSE, outsider) {
+			outsider = 100 + (outsider-100+1)%len(u.DSSE)
+		}
+		for _, gid := range sortedGroups(groups) {
+			ops = append(ops, &Op{Kind: "sign", S: SOpts{PGP: -1, DSSE: []int{outsider}, Groups: []uint32{gid}, T: TOpt{Kind: "det"}}},
+				&Op{Kind: "forge", S: SOpts{Groups: []uint32{gid}}, ID: uint32(r.Intn(3))})
+		}
+		g.count("tamper:envelope-duplicate-member-forgery")
+	}
 	ops = append(ops, factsOp())
 	ver1 := len(ops)
 	ops = append(ops, &Op{Kind: "verify", V: v})
 	mode := r.Intn(11)
+	if forge {
+		mode = 5 + r.Intn(2) // a data bit of an object
+	}
 	var orig protView
 	var verifiedIDs []uint32
 	check := func(e *Env, i int, op *Op, obs []string) *Violation {
